@@ -85,6 +85,9 @@ def special(name, args):
         return E(f=(2, -2, -2)) if args[0] == 'true' else E(f=(1, -1, -1))
     if name == 'expr_optimize_exp':
         return E(f=(6, -4, -4)) if 'EXPRPRICE' in args[1] else E(f=(5, -3, -3))
+    if name == 'expr_simulate':
+        reach = len(args) > 1 and args[1] in ('true', '1')
+        return E(f=(n_(0, 4), n_(0, -3, -1), n_(0, -3, -1))) if reach else E(f=(n_(0, 3), n_(0, -2, -1), n_(0, -2, -1)))
     if name == 'proc_location':
         k = (args[1] == 'true') + (args[2] == 'true')
         return E(f=(k, -k, -k))
